@@ -1458,7 +1458,16 @@ impl<'a, SE: extensions::ShellExtensions> WordExpander<'a, SE> {
                             .into())
                         }
                         ShellValue::String(_) => {
-                            Ok(std::format!("{name}={assignable_value_str}").into())
+                            // A bare assignment doesn't carry attributes; only use it when
+                            // there are none to recreate.
+                            if attr_str == "-" {
+                                Ok(std::format!("{name}={assignable_value_str}").into())
+                            } else {
+                                Ok(std::format!(
+                                    "declare -{attr_str} {name}={assignable_value_str}"
+                                )
+                                .into())
+                            }
                         }
                         ShellValue::Unset(_) => {
                             Ok(std::format!("declare -{attr_str} {name}").into())
